@@ -301,6 +301,9 @@ func (r *Run) checkAuthorizeSuccess(st Step, cs *ClientSpec, g *Grant, res *Resp
 	if p.Get("id_token") != "" && len(g.Nonce) < r.minEntropy() {
 		r.violate("C13", "id-token-without-nonce", "", "an ID token was issued from the authorization endpoint for nonce %q (minimum length %d)", g.Nonce, r.minEntropy())
 	}
+	if r.W.K.PAREnforced && !g.ViaPAR {
+		r.violate("C17", "authorized-without-request-uri-although-enforced", g.Origin, "pushing is enforced but an authorization request without a request_uri was answered with a success (response_type %q)", g.Params["response_type"])
+	}
 	if m := st.p("mode"); m != "" && !has(cs.ResponseModes, m) && !g.ViaPAR {
 		r.violate("C13", "unregistered-response-mode", "", "client %s (modes %v) was answered with response_mode %q", cs.ID, cs.ResponseModes, m)
 	}
